@@ -34,6 +34,9 @@ func RunStrategy(s strategy.Strategy, snaps []*asset.Snapshot, capacity int, opt
 	r.Res = mc.Run(func() {
 		sink = Collect(s.Compute(Feed(snaps, capacity)))
 	}, opt)
+	if sink == nil { // Compute itself panicked (recorded in Res.Panics)
+		return r
+	}
 	for _, a := range sink.Vals {
 		r.Actions = append(r.Actions, int(a))
 	}
